@@ -4,6 +4,8 @@ import itertools
 from hypothesis import strategies as st
 
 from vlib import refproto as rp
+from vlib.engines import grp as _grp
+from vlib.engines.base import drive as _drive, run_trace as _run_trace
 from vlib.runner import hyp
 
 PROP = "C15"
@@ -16,10 +18,14 @@ RULE = (
     "all subscription maps) with (M,T,P) = (3,2,2) quick / (4,3,3) thorough. oracle: exact cover of the subscribed topics' "
     "partitions, only-subscribed, sizes differ <= 1 when subscriptions are identical, same member->partitions map for every "
     "permutation, one blob per listed member, afkak decode == refproto decode. "
-    "non-trivial = >= 2 members and >= 2 partitions in total, or unequal subscriptions; distinct = distinct input."
+    "non-trivial = >= 2 members and >= 2 partitions in total, or unequal subscriptions; distinct = distinct input. "
+    "leader path (engine GRP): traces in which the real Coordinator joins a simulated group with 0-3 ghost members whose subscriptions equal or "
+    "contain its own; whenever it is elected leader, the assignments in the SyncGroup it writes are parsed independently and checked against the "
+    "member list and subscriptions the coordinator model handed out and the cluster's partitions (same clauses), and a join won as leader must be "
+    "followed by a SyncGroup or another attempt once faults cease; non-trivial there = a checked leader assignment with >= 2 members or generations."
 )
 ASSUMPTIONS = [
-    "the partition map handed to generate_assignments covers every subscribed topic (obtaining it is the coordinator's job, exercised end-to-end by the GRP engine)",
+    "for the direct calls the partition map handed to generate_assignments covers every subscribed topic; obtaining it is the coordinator's job, exercised by the leader-path traces",
     "topic names are legal Kafka topic names (ASCII); member ids are arbitrary text",
 ]
 
@@ -130,7 +136,18 @@ def scope(M, T, P):
                            "perms": [list(reversed(members)), sorted(members)]}
 
 
+class LeaderEng(_grp.GRPEngine):
+    """the leader path end to end: the real Coordinator elected leader by the coordinator model, ghosts with equal or wider subscriptions"""
+    MACROS = ["stable", "rebalance", "rebalance", "leave", "joinfault"]
+    MACRO_ONE_IN = 2
+
+    def nontrivial(self):
+        return "leader-assignment-checked" in self.nt and len(self.g.members) + len(self.eras) >= 2
+
+
 def shard(ctx):
+    _drive(ctx, LeaderEng, ctx.n(16 * 60, 16 * 1500), min_steps=6, max_steps=50, offset=2, props={"C15"})
+
     def body(case):
         nt = check(ctx, case)
         subs = [tuple(sorted(s)) for _, s in case["subs"]]
@@ -157,6 +174,9 @@ EXHAUSTIVE = {"quick": "all inputs with <=3 members, <=2 topics, <=2 partitions/
 
 
 def replay(case, ctx):
+    if isinstance(case, dict) and case.get("engine") == "GRP":
+        _run_trace(LeaderEng, case, ctx, props={"C15"})
+        return
     check(ctx, case)
 
 
